@@ -85,7 +85,7 @@ def bounds(tier):
     return {
         "states": STATES,
         "actions": ["stop", "shutdown"],
-        "suffix_events": 6 if q else 8,
+        "suffix_events": 6 if q else 7,
         "configs": "no group | group with auto_commit_every_n=1 | group with auto_commit_every_ms=5000",
         "offsets": "symbolic o_1 in [0,2^62], gaps in [1,2^40]",
         "outside": "real KafkaClient underneath; states reachable only through >1 partition",
@@ -114,9 +114,9 @@ def jobs(tier):
                     if cfg == "ms":
                         continue
                     for limit in (2,) if action == "stop" else (2, 0):
-                        out.append({"state": state, "action": action, "cfg": cfg, "K": 5 if q else 7, "retry_limit": limit})
+                        out.append({"state": state, "action": action, "cfg": cfg, "K": 5 if q else 6, "retry_limit": limit})
                     continue
-                out.append({"state": state, "action": action, "cfg": cfg, "K": 6 if q else 8})
+                out.append({"state": state, "action": action, "cfg": cfg, "K": 6 if q else 7})
     return out
 
 
